@@ -906,6 +906,8 @@ class Machine(Interp):
         c.effects, c.allocs = [], set()
         trace_mark = len(c.trace)
         c.generic.append((seg, j))
+        outer_log = getattr(fr, "access_log", None)
+        fr.access_log = {}
         try:
             vals = list(seg.items)
             sig = yield from self.one_round(target, vals, value_fn, seg, fr, round_body, j)
@@ -913,6 +915,10 @@ class Machine(Interp):
             c.generic.pop()
             effects, allocs = c.effects, c.allocs
             c.effects, c.allocs = saved_eff, saved_alloc
+            round_log, fr.access_log = fr.access_log, outer_log
+            if outer_log is not None:
+                for k_, v_ in round_log.items():
+                    outer_log.setdefault(k_, v_)
         if sig is not None and sig is not CONTINUE:
             raise Unsupported(f"control transfer ({sig[0]}) out of a generic loop round at {key}")
 
@@ -932,6 +938,13 @@ class Machine(Interp):
             if name in target_names:
                 continue
             b, a = entry.get(name, _MISSING), after.get(name, _MISSING)
+            if round_log.get(name) == "w" and name not in affine and name not in accs:
+                # written before it is read in the round: a round-local temporary, not
+                # loop-carried; after the loop it holds the last round's value (untracked
+                # unless it is the same in every round and equal to the entry value)
+                if not _same_value(c, a, b):
+                    after[name] = Poison(f"{name} bound in summarised loop")
+                continue
             if name in affine:
                 ok, _ = c.valid(zint(a) == zint(b) + affine[name])
                 if not ok:
